@@ -527,7 +527,7 @@ func runC20S1(c *Ctx) {
 	}
 	isLog := func(i ssa.Instruction) bool {
 		call, ok := i.(*ssa.Call)
-		return ok && call.Call.IsInvoke() && call.Call.Method.Name() == "Log" && namedIs(call.Call.Value.Type(), "logger.Logger")
+		return ok && c20IsLogCall(&call.Call)
 	}
 	var logs []*ssa.Call
 	for _, f := range c.region(serve) {
